@@ -30,6 +30,7 @@ def ctor_src(variant, inc, start, end, mn, mx, ext):
 
 def build(variant, inc, start, end, mn, mx, ext):
     common.import_pregex()
+    common.note_construction(ctor_src(variant, inc, start, end, mn, mx, ext))
     import pregex.meta.essentials as me
     cls = getattr(me, variant)
     if variant == "Decimal":
